@@ -69,12 +69,12 @@ def st_class_case(draw, deco_kw, hier_kw):
         cargs = draw(st.sampled_from([{}, {}, {"x": "a:cx"}, {"x": "a:cx", "y": "a:cy"}])) if takes_args else {}
         ops.append({"op": "new", "cls": ci, "k": ci, "args": cargs})
         f = None
-        for cj in range(ci, -1, -1):
+        for cj in sorted(anc, reverse=True):
             for m in prog["classes"][cj]["members"]:
-                if m["name"] == mname and m["kind"] == kind:
+                if m["name"] == mname and m["kind"] == kind and f is None:
                     f = m
-        args = draw(G.st_call_args(f)) if f is not None else {}
-        ops.append(G.op_for_member(kind, ci, mname, args))
+        if f is not None:
+            ops.append(G.op_for_member(kind, ci, mname, draw(G.st_call_args(f))))
     return {"program": prog, "ops": ops, "codes": draw(G.st_codes(all_cids(prog))), "target_kind": kind,
             "member": mname}
 
